@@ -94,7 +94,7 @@ def local_defs(func, inl=None):
             if enclosing(x, ('ForStmt', 'WhileStmt', 'DoStmt', 'CXXForRangeStmt')) is not None and False:
                 continue
             init = kids(x)[-1]
-            if any(c.get('kind') in ('CallExpr', 'CXXMemberCallExpr', 'CXXOperatorCallExpr') and (call_name(c) or '') not in ('min', 'max', 'size', 'length', 'remaining', 'where') and not (call_name(c) or '').startswith('operator ') for c in walk(init)):
+            if any(c.get('kind') in ('CallExpr', 'CXXMemberCallExpr', 'CXXOperatorCallExpr') and (call_name(c) or '') not in ('min', 'max', 'size', 'length', 'remaining', 'where', 'operator[]', 'at', 'data') and not (call_name(c) or '').startswith('operator ') for c in walk(init)):
                 continue     # only pure arithmetic over parameters / fields / observers
             s = canon(init)
             if inl is not None:
